@@ -8,7 +8,7 @@
 (***************************************************************************)
 EXTENDS ExchangeCore
 
-ObsOrder(o) == [state |-> o.state, filled |-> o.filled, qfilled |-> o.qfilled, fee |-> o.fee,
+ObsOrder(o) == [state |-> o.state, filled |-> o.filled, qfilled |-> o.qfilled, fee |-> o.fee, feeB |-> o.feeB,
                 remaining |-> o.amount - o.filled, loans |-> o.loans]
 ObsLoan(s, l) == [open |-> l.open, sym |-> l.sym, amount |-> l.amount, paid |-> l.paid,
                   outInt |-> IF l.open /\ InterestConvertible(s, l) THEN InterestOf(s, l, s.clock) ELSE 0]
